@@ -252,6 +252,8 @@ def run(ctx: Ctx):
     _sticky_sentinels(ctx)
     _report_counts_what_validation_accepts(ctx)
     _write_back_source(ctx)
+    _ref_boundary_decision_table(ctx)
+    _deprecated_boolean_fix(ctx)
     plumbing(ctx, "S7")
     return dict(
         explanation=(
@@ -639,10 +641,201 @@ def _write_back_source(ctx: Ctx):
            sample=[u(c)[:70] for c in saves])
 
 
+
+def _ref_boundary_decision_table(ctx: Ctx):
+    """S9: what validation does with one reference token (start, end) given the frame count T and the fix tolerance is a
+    function of finitely many orderings of the four integers. The per-token statement block is interpreted (comparisons,
+    and/or/not, +/-, `is None`) on a grid of orderings and compared with the documented table:
+        both missing (-1, -1)                          -> accept
+        exactly one missing                            -> repair (both := -1) if a tolerance is given, else refuse
+        end < start                                    -> refuse
+        end > T                                        -> repair (end := T) if tolerance given, start <= T and end - T <= fix; else refuse
+        otherwise                                      -> accept
+    An edit that re-orders the tests (so that a fatal test shadows a repairable one) or changes a bound shows up as a row."""
+    col, pkg = ctx.col, ctx.pkg
+    f = pkg.func("_datasets::_info_and_validate")
+    rel = f.module.relname
+    where = f"{rel}::_info_and_validate"
+    loops = []
+    for n in own_nodes(f.node):
+        if isinstance(n, ast.For) and isinstance(n.target, ast.Tuple) and len(n.target.elts) == 2 and isinstance(n.target.elts[1], ast.Name) \
+                and isinstance(n.iter, ast.Call) and call_name(n.iter) == "enumerate":
+            rv = n.target.elts[1].id
+            if any(isinstance(x, ast.Subscript) and u(x.value) == rv and u(x.slice) in ("1", "2") for x in ast.walk(n)):
+                loops.append((n, rv))
+    Tn = None
+    for n in own_nodes(f.node):
+        if isinstance(n, ast.Assign) and isinstance(n.targets[0], ast.Tuple) and len(n.targets[0].elts) == 2 \
+                and isinstance(n.value, ast.Attribute) and n.value.attr == "shape":
+            Tn = u(n.targets[0].elts[0])
+    if len(loops) != 1 or Tn is None or "fix" not in {p.name for p in f.params}:
+        col.undecided(f"{where}: the per-token boundary loop / frame count / fix option was not recognised")
+        return
+    loop, rv = loops[0]
+
+    class Und(Exception):
+        pass
+
+    def ev(e, env):
+        if isinstance(e, ast.Constant):
+            return e.value
+        if isinstance(e, ast.Name):
+            if e.id in env:
+                return env[e.id]
+            raise Und(e.id)
+        if isinstance(e, ast.Subscript) and u(e.value) == rv and isinstance(e.slice, ast.Constant):
+            return env[rv][e.slice.value]
+        if isinstance(e, ast.UnaryOp) and isinstance(e.op, ast.Not):
+            return not ev(e.operand, env)
+        if isinstance(e, ast.UnaryOp) and isinstance(e.op, ast.USub):
+            return -ev(e.operand, env)
+        if isinstance(e, ast.BoolOp):
+            vals = (ev(v, env) for v in e.values)
+            return all(vals) if isinstance(e.op, ast.And) else any(vals)
+        if isinstance(e, ast.BinOp) and isinstance(e.op, (ast.Add, ast.Sub)):
+            a, b = ev(e.left, env), ev(e.right, env)
+            if a is None or b is None:
+                raise Und("arithmetic on None")
+            return a + b if isinstance(e.op, ast.Add) else a - b
+        if isinstance(e, ast.Compare):
+            left = ev(e.left, env)
+            for op, r_ in zip(e.ops, e.comparators):
+                right = ev(r_, env)
+                if isinstance(op, ast.Is):
+                    res = left is right
+                elif isinstance(op, ast.IsNot):
+                    res = left is not right
+                else:
+                    if left is None or right is None:
+                        raise Und("ordering on None")
+                    res = {ast.Lt: left < right, ast.LtE: left <= right, ast.Gt: left > right, ast.GtE: left >= right,
+                           ast.Eq: left == right, ast.NotEq: left != right}[type(op)]
+                if not res:
+                    return False
+                left = right
+            return True
+        raise Und(u(e)[:40])
+
+    def run_block(body, env, out):
+        """returns 'raise' / None (fell through); repairs are appended to out."""
+        for st in body:
+            if isinstance(st, ast.If):
+                r_ = run_block(st.body if ev(st.test, env) else st.orelse, env, out)
+                if r_:
+                    return r_
+            elif isinstance(st, ast.Raise):
+                return "raise"
+            elif isinstance(st, ast.Assign) and len(st.targets) == 1 and isinstance(st.targets[0], ast.Subscript) and u(st.targets[0].value) == rv:
+                sl_ = st.targets[0].slice
+                val = ev(st.value, env)
+                if isinstance(sl_, ast.Slice) and u(sl_) == "1:":
+                    env[rv][1] = env[rv][2] = val
+                elif isinstance(sl_, ast.Constant) and sl_.value in (1, 2):
+                    env[rv][sl_.value] = val
+                else:
+                    raise Und(u(st))
+                out.append(u(st))
+            elif isinstance(st, ast.Assign) and len(st.targets) == 1 and isinstance(st.targets[0], ast.Name):
+                try:
+                    env[st.targets[0].id] = ev(st.value, env)
+                except Und:
+                    env.pop(st.targets[0].id, None)  # messages etc.
+            elif isinstance(st, ast.Expr):
+                continue  # warnings.warn(...)
+            else:
+                raise Und(type(st).__name__)
+        return None
+
+    def want(s, e, T, fix):
+        if s < 0 and e < 0:
+            return ("accept", (s, e))
+        if s < 0 or e < 0:
+            return ("accept", (-1, -1)) if fix is not None else ("raise", None)
+        if e < s:
+            return ("raise", None)
+        if e > T:
+            return ("accept", (s, T)) if fix is not None and s <= T and e - T <= fix else ("raise", None)
+        return ("accept", (s, e))
+    bad = None
+    npts = 0
+    try:
+        for T in (0, 2, 3):
+            for s in (-1, 0, 1, 2, 3, 4):
+                for e in (-1, 0, 1, 2, 3, 4, 6):
+                    for fix in (None, 0, 1, 3):
+                        env = {rv: [7, s, e], Tn: T, "fix": fix}
+                        out = []
+                        r_ = run_block(loop.body, env, out)
+                        got = ("raise", None) if r_ == "raise" else ("accept", (env[rv][1], env[rv][2]))
+                        npts += 1
+                        if got != want(s, e, T, fix) and bad is None:
+                            bad = dict(start=s, end=e, T=T, fix=fix, does=got, documented=want(s, e, T, fix))
+    except Und as ex:
+        col.undecided(f"{where}: per-token block outside the interpreted fragment ({ex})")
+        return
+    col.ob("G12", "S9", f"{where}::per-token-decision-table", bad is None and npts > 0,
+           f"for a reference token {bad} - the tests on one token are not the documented table (a fatal test placed before a "
+           f"repairable one shadows it: a token with a start but no end has end = -1 < start)", rel, loop.lineno,
+           sample=dict(points=npts, row_variable=rv))
+
+
+
+def _deprecated_boolean_fix(ctx: Ctx):
+    """S10: `fix` used to be a boolean. The normalisation under `isinstance(fix, bool)` must send False to None (strict: refuse
+    every defect) and True to a tolerance; `int(False)` is the tolerance 0, which REPAIRS dtype and half-open-boundary defects
+    on disk where the caller asked for a refusal."""
+    col, pkg = ctx.col, ctx.pkg
+    f = pkg.func("_datasets::validate_spect_data_set")
+    rel = f.module.relname
+    pm = parent_map(f.node)
+    sites = []
+    for n in own_nodes(f.node):
+        if isinstance(n, ast.Assign) and len(n.targets) == 1 and u(n.targets[0]) == "fix" and any(
+                pol and any(isinstance(x, ast.Name) and x.id == "fix" for x in ast.walk(t)) and (
+                    ("isinstance" in u(t) and "bool" in u(t)) or
+                    any(isinstance(x, ast.Constant) and isinstance(x.value, bool) for x in ast.walk(t))) for t, pol in guards_of(pm, n)):
+            sites.append(n)
+    if len(sites) != 1:
+        col.undecided(f"{rel}::validate_spect_data_set: the boolean normalisation of `fix` was not recognised")
+        return
+
+    def ev(e, val):
+        if isinstance(e, ast.Constant):
+            return e.value
+        if isinstance(e, ast.Name) and e.id == "fix":
+            return val
+        if isinstance(e, ast.IfExp):
+            return ev(e.body, val) if ev(e.test, val) else ev(e.orelse, val)
+        if isinstance(e, ast.UnaryOp) and isinstance(e.op, ast.Not):
+            return not ev(e.operand, val)
+        if isinstance(e, ast.Call) and call_name(e) == "int" and len(e.args) == 1:
+            return int(ev(e.args[0], val))
+        if isinstance(e, ast.BoolOp):
+            out = None
+            for v in e.values:
+                out = ev(v, val)
+                if (isinstance(e.op, ast.And) and not out) or (isinstance(e.op, ast.Or) and out):
+                    return out
+            return out
+        raise ValueError(u(e))
+    try:
+        vt, vf = ev(sites[0].value, True), ev(sites[0].value, False)
+    except ValueError as ex:
+        col.undecided(f"{rel}::validate_spect_data_set: `{u(sites[0])}` is outside the evaluated fragment ({ex})")
+        return
+    ok = vf is None and isinstance(vt, int) and not isinstance(vt, bool) and vt >= 0
+    col.ob("G12", "S10", f"{rel}::validate_spect_data_set::fix=False-means-strict", ok,
+           f"`{u(sites[0])}` maps fix=True to {vt!r} and fix=False to {vf!r}: False must become None (refuse), a tolerance of "
+           f"{vf!r} repairs the directory on disk instead", rel, sites[0].lineno, sample={"True": repr(vt), "False": repr(vf)})
+
+
 def _mutants():
     from selftest.mutate import Mutant as M
     D = "_datasets.py"
     return [
+        M("fatal-test-shadows-the-repairable-one", D, "if r[1] < 0 or r[2] < 0:\n    if fix is not None:\n        warnings.warn(msg + '. Removing unpaired boundary')\n        r[1:] = -1\n        write_back = True\n    else:\n        raise ValueError(msg)\nelif r[2] < r[1]:\n    raise ValueError(msg)\nelif r[2] > T:",
+          "if r[2] < r[1]:\n    raise ValueError(msg)\nelif r[1] < 0 or r[2] < 0:\n    if fix is not None:\n        warnings.warn(msg + '. Removing unpaired boundary')\n        r[1:] = -1\n        write_back = True\n    else:\n        raise ValueError(msg)\nelif r[2] > T:", "per-token-decision-table"),
+        M("false-becomes-tolerance-zero", D, "fix = 1 if fix else None", "fix = int(fix)", "fix=False-means-strict"),
         M("report-drops-empty-segments", "_datasets.py", "if rcount >= 0 and end >= start >= 0:", "if rcount >= 0 and end > start >= 0:", "report-counts-the-segments-validation-accepts"),
         M("unknown-marker-not-sticky", "_datasets.py", "if rcount >= 0 and end >= start >= 0:", "if end >= start >= 0:", "unknown-marker-is-absorbing"),
         M("repair-without-permission", D, "if fix is not None and T + fix >= ali.shape[0] > T:",
